@@ -253,6 +253,13 @@ def run(tier: str) -> int:
         n_analyses += na
         per_cfg.append({"config": cfg["name"], "constants": consts, "layouts": cfg["layouts"], "states": m.distinct, "programs": len(chunks), "analyses": na, "disagreements": bad})
         log(f"[C01] {cfg['name']}: {m.distinct} states, {len(chunks)} complete programs, {na} analyses, {bad} disagreements, {t.s()}s")
+    # the implementation-shaped model of the Python suite finder, bound to the real extract_blocks
+    from .. import pysuite
+
+    ps = pysuite.run(wd, rep, tier, t)
+    tot_states += ps["states"]
+    tot_trans += ps["transitions"]
+    n_analyses += ps["replayed"]
     # the implementation-shaped model of pairing / folding / counting, bound to the real intermediates (drift only)
     from ..langs import corpus_files
 
@@ -269,6 +276,7 @@ def run(tier: str) -> int:
         PROP, tier, level="model_checking", wall_s=t.s(), violations=rep.n_violations,
         coverage={
             "states": tot_states, "transitions": tot_trans, "traces_validated_against_impl": n_analyses + n_sc, "exhaustive": True,
+            "python_suites": ps["detail"],
             "scopes_model": {"module": "Scopes.tla / ScopesTrace.tla", "abstract_sequences": sm.distinct, "recorded_intermediates": n_sc, "drift": len(sdrift)},
             "samples": samples or [{"note": "no program with >= 4 items in this run"}],
             "programs": n_prog, "configurations": per_cfg, "languages": list(TRAITS), "layouts": LAYOUTS,
@@ -284,6 +292,14 @@ def run(tier: str) -> int:
 
 def replay(path: str) -> int:
     case = json.loads(open(path).read())
+    if case.get("kind") == "pysuite":
+        from .. import pysuite
+
+        if pysuite.replay_case(case):
+            print(f"VIOLATION property={PROP} replay={path}")
+            return 1
+        print("agrees with PySuite.tla")
+        return 0
     lang = case["language"]
     got = guarded(lambda _: analyse(lang, case["text"]), None, 60)
     print(case["text"])
